@@ -375,6 +375,15 @@ def r3_accumulation(ctx):
             for call in [x for x in ast.walk(fn) if isinstance(x, ast.Call) and dotted_name(x.func) == cname]:
                 nmode += 1
                 kw = {k.arg: norm(k.value) for k in call.keywords}
+                if cname == "Element":
+                    first = norm(call.args[0]) if call.args else kw.get("expr")
+                    w2 = "a scaled or summed species is re-created from its full expression (symbol with isotope / charge suffix)"
+                    if first == f"{me}.expr":
+                        ctx.holds(rel, f"{cname}.{mname}", w2, detail=norm(call)[:100])
+                    elif first == f"{me}.element":
+                        ctx.violated(rel, f"{cname}.{mname}", w2, detail=norm(call)[:100], expected=f"{cname}({me}.expr, ...): {me}.element is the bare symbol")
+                    else:
+                        ctx.form(False, rel, f"{cname}.{mname}", w2, detail=norm(call)[:100])
                 what = "arithmetic keeps the isotope mode of its operand"
                 if kw.get("natural") == f"{me}.natural" or (None in kw):
                     ctx.holds(rel, f"{cname}.{mname}", what, detail=norm(call)[:100])
@@ -383,6 +392,39 @@ def r3_accumulation(ctx):
                 else:
                     ctx.form(False, rel, f"{cname}.{mname}", what, detail=norm(call)[:100])
     ctx.floor("constructor calls in species arithmetic", nmode, 4)
+    # the formula text of a composite grows with every component that is added
+    for rel, cname in ((SU, "Substance"), (MA, "Material")):
+        fn = methods(ctx.repo.cls(rel, cname)).get("_add_expr")
+        if fn is None:
+            continue
+        w3 = "the formula text accumulates: adding a component appends to it"
+        stores = [a for a in ast.walk(fn) if isinstance(a, (ast.Assign, ast.AugAssign)) and norm(a.targets[0] if isinstance(a, ast.Assign) else a.target) == "self.expr"]
+        if not stores:
+            ctx.form(False, rel, f"{cname}._add_expr", w3, detail="no write to self.expr")
+        for a in stores:
+            if isinstance(a, ast.AugAssign) and isinstance(a.op, ast.Add):
+                ctx.holds(rel, f"{cname}._add_expr", w3, detail=norm(a)[:90])
+            elif isinstance(a, ast.Assign) and any(norm(x) == "self.expr" for x in ast.walk(a.value)):
+                ctx.holds(rel, f"{cname}._add_expr", w3, detail=norm(a)[:90])
+            elif isinstance(a, ast.Assign):
+                ctx.violated(rel, f"{cname}._add_expr", w3, detail=norm(a)[:90], expected="self.expr += ...: only the last component would be left")
+            else:
+                ctx.form(False, rel, f"{cname}._add_expr", w3, detail=norm(a)[:90])
+    # classes stored in the same `component_class` slot are constructed by the same callers: the parameters they share
+    # come in the same order
+    sigs = {}
+    for rel, cname in ((EL, "Element"), (SU, "Substance")):
+        init = methods(ctx.repo.cls(rel, cname)).get("__init__")
+        if init is not None:
+            sigs[cname] = [a.arg for a in init.args.args[1:]]
+    if len(sigs) == 2:
+        a, b = sigs["Element"], sigs["Substance"]
+        shared = [x for x in a if x in b]
+        w4 = "component classes (one slot: component_class) take their shared parameters in the same order"
+        if shared == [x for x in b if x in a]:
+            ctx.holds(EL, "Element.__init__", w4, detail={"Element": a, "Substance": b})
+        else:
+            ctx.violated(SU, "Substance.__init__", w4, detail={"Element": a, "Substance": b}, expected=f"shared parameters in the order {shared}")
     fn = ctx.fn(SU, "Substance.data_composite")
     src = norm(fn)
     for col, f in (("mass", "m.mass"), ("Z", "m.Z"), ("N", "m.N"), ("e", "m.e")):
